@@ -213,6 +213,24 @@ class Source:
         body_close = match_brace(self.mask, body_open)
         return sig_start, body_open, body_close
 
+    def find_helper(self, name):
+        """(impl header text, impl range) of the inherent impl block that defines `fn name` directly, or None"""
+        for m in re.finditer(r"\bimpl\b[^{;]*\{", self.mask):
+            if self.in_tests(m.start()):
+                continue
+            if self.mask[:m.start()].count("{") != self.mask[:m.start()].count("}"):
+                continue
+            header = self.text[m.start():m.end() - 1].strip()
+            if re.search(r"\bfor\b", mask_rust(header)):
+                continue        # trait impls are not helpers
+            rng = (m.end() - 1, match_brace(self.mask, m.end() - 1))
+            try:
+                self.find_fn(name, [rng])
+            except AnchorLost:
+                continue
+            return header, rng
+        return None
+
     def find_item(self, kind, name):
         if kind == "macro":
             rx = re.compile(r"macro_rules!\s*" + re.escape(name) + r"\s*\{")
@@ -682,7 +700,7 @@ def split_signature(sig: str):
     return sig[:arrow].rstrip(), sig[arrow + 2:end].strip(), wh
 
 
-def generate(unit, template_path, canary=False):
+def generate(unit, template_path, canary=False, extra_fns=()):
     srcs = {}
 
     def get_src(rel):   # per-call cache: generate() may run concurrently for several units
@@ -692,6 +710,26 @@ def generate(unit, template_path, canary=False):
 
     g = Gen(unit, template_path)
     blocks = parse_template(template_path)
+    if extra_fns:
+        # auto-included helpers: functions of /repo that an extracted body calls but the template does not list
+        # (typically introduced by a change). They get NO contract: their bodies are checked for safety and their
+        # results are unconstrained, so a caller's postcondition can only still hold if it does not depend on them.
+        extra = []
+        for (rel, header, name, props) in extra_fns:
+            extra.append(("text", ["", f"// auto-included helper `{name}` from {rel} (called by an extracted body; no contract)", header + " {"], 0))
+            extra.append(("fn", {"file": rel, "impl": header, "name": name, "props": list(props), "ret": None, "clauses": [], "loops": [],
+                                 "rewrites": [], "inserts": [], "sigs": [], "attrs": [], "tline": 0, "as": None, "novis": False,
+                                 "external_body": False, "arm": None}))
+            extra.append(("text", ["}"], 0))
+        # place before the closing `} // verus!` of the template
+        for bi in range(len(blocks) - 1, -1, -1):
+            if blocks[bi][0] == "text":
+                lines = blocks[bi][1]
+                idx = max((k for k, ln in enumerate(lines) if ln.strip().startswith("} // verus!")), default=None)
+                if idx is not None:
+                    head, tail = lines[:idx], lines[idx:]
+                    blocks[bi:bi + 1] = [("text", head, blocks[bi][2])] + extra + [("text", tail, blocks[bi][2] + idx)]
+                    break
     trel = os.path.relpath(template_path, os.path.dirname(os.path.dirname(template_path)))
     header_done = False
     for b in blocks:
